@@ -566,6 +566,14 @@ def _run_cases(P, prop_id, tier, seed, rng, t0, broken, notes, axioms, driver_ok
             cases.append(Case(ln, hn, ('replay',), 'replay'))
     else:
         cases.extend(P.corpus())
+        # entries on which the code's tabulated graph and the model's graph differ (tools/tabdiff.py): empty on an unchanged
+        # or harmlessly rewritten tree; otherwise the differing inputs are judged by the oracle like any other case
+        try:
+            import tabdiff
+            for hn, ln, tb in tabdiff.cases(prop_id, REPO, STATE['driver'] if driver_ok else None):
+                cases.append(Case(ln, hn, ('tabdiff', tb), 'tabdiff'))
+        except Exception as e:
+            notes.append(f'tabdiff failed: {type(e).__name__}: {e}')
         cdir = os.path.join(VERIF, 'corpus', prop_id)
         if os.path.isdir(cdir):
             for fn in sorted(os.listdir(cdir)):
